@@ -66,7 +66,7 @@ func callsTo(fn, target *ssa.Function) []ssa.CallInstruction {
 func invokeName(c ssa.CallInstruction) string {
 	cc := c.Common()
 	if cc.IsInvoke() {
-		return cc.Method.Name()
+		return nm(cc.Method)
 	}
 	return ""
 }
@@ -74,7 +74,7 @@ func invokeName(c ssa.CallInstruction) string {
 // isBuiltinCall reports a call to builtin `name` (append, len, copy, delete, clear...).
 func isBuiltinCall(c ssa.CallInstruction, name string) bool {
 	b, ok := c.Common().Value.(*ssa.Builtin)
-	return ok && b.Name() == name
+	return ok && nm(b) == name
 }
 
 // qualified name of a function: pkgpath.Name or pkgpath.(T).Name
@@ -86,6 +86,7 @@ func fq(fn *ssa.Function) string {
 }
 
 // shortName gives a stable short identifier for repo functions: Entry.logContext, logctx, ...
+// (with the canonical names of renamed functions and types, see anchors.go)
 func shortName(fn *ssa.Function) string {
 	if fn == nil {
 		return "<nil>"
@@ -97,6 +98,32 @@ func shortName(fn *ssa.Function) string {
 	s = strings.ReplaceAll(s, "(*", "")
 	s = strings.ReplaceAll(s, "(", "")
 	s = strings.ReplaceAll(s, ")", "")
+	top := fn
+	for top.Parent() != nil {
+		top = top.Parent()
+	}
+	if o := origin(top).Object(); o != nil {
+		if a, ok := aliasOf[o]; ok {
+			s = replaceWord(s, o.Name(), a)
+		}
+	}
+	if r := top.Signature.Recv(); r != nil {
+		if n := namedOf(r.Type()); n != nil {
+			if a, ok := aliasOf[n.Obj()]; ok {
+				s = replaceWord(s, n.Obj().Name(), a)
+			}
+		}
+	}
+	return s
+}
+
+func replaceWord(s, old, new string) string {
+	isW := func(c byte) bool { return c == '_' || c >= '0' && c <= '9' || c >= 'a' && c <= 'z' || c >= 'A' && c <= 'Z' }
+	for i := 0; i+len(old) <= len(s); i++ {
+		if s[i:i+len(old)] == old && (i == 0 || !isW(s[i-1])) && (i+len(old) == len(s) || !isW(s[i+len(old)])) {
+			return s[:i] + new + s[i+len(old):]
+		}
+	}
 	return s
 }
 
@@ -246,7 +273,7 @@ func namedOf(t types.Type) *types.Named {
 
 func typeName(t types.Type) string {
 	if n := namedOf(t); n != nil {
-		return n.Obj().Name()
+		return nm(n.Obj())
 	}
 	return t.String()
 }
@@ -254,7 +281,7 @@ func typeName(t types.Type) string {
 // isFieldLoadOf reports whether v is a load of field `name` of struct type `typ` (any base) and returns the base.
 func isFieldLoadOf(v ssa.Value, typ, name string) (ssa.Value, bool) {
 	base, _, f, ok := fieldLoad(strip(v))
-	if !ok || f.Name() != name {
+	if !ok || nm(f) != name {
 		return nil, false
 	}
 	if typeName(base.Type()) != typ {
@@ -560,7 +587,7 @@ func fieldStores(fn *ssa.Function) []FieldStore {
 		if st == nil {
 			return
 		}
-		out = append(out, FieldStore{Fn: fn, Instr: in, Struct: typeName(fa.X.Type()), Field: st.Field(fa.Field).Name(), Base: fa.X, Val: val, Kind: kind})
+		out = append(out, FieldStore{Fn: fn, Instr: in, Struct: typeName(fa.X.Type()), Field: nm(st.Field(fa.Field)), Base: fa.X, Val: val, Kind: kind})
 	}
 	for _, b := range fn.Blocks {
 		for _, in := range b.Instrs {
@@ -571,19 +598,19 @@ func fieldStores(fn *ssa.Function) []FieldStore {
 				} else if ia, ok := x.Addr.(*ssa.IndexAddr); ok {
 					// element store into a slice/array loaded from a field
 					if base, _, f, ok := fieldLoad(ia.X); ok {
-						out = append(out, FieldStore{Fn: fn, Instr: in, Struct: typeName(base.Type()), Field: f.Name(), Base: base, Val: x.Val, Kind: "elem"})
+						out = append(out, FieldStore{Fn: fn, Instr: in, Struct: typeName(base.Type()), Field: nm(f), Base: base, Val: x.Val, Kind: "elem"})
 					}
 				}
 			case *ssa.MapUpdate:
 				if base, _, f, ok := fieldLoad(x.Map); ok {
-					out = append(out, FieldStore{Fn: fn, Instr: in, Struct: typeName(base.Type()), Field: f.Name(), Base: base, Val: x.Value, Kind: "mapupdate"})
+					out = append(out, FieldStore{Fn: fn, Instr: in, Struct: typeName(base.Type()), Field: nm(f), Base: base, Val: x.Value, Kind: "mapupdate"})
 				}
 			case ssa.CallInstruction:
 				cc := x.Common()
 				if isBuiltinCall(x, "delete") || isBuiltinCall(x, "clear") {
 					if len(cc.Args) > 0 {
 						if base, _, f, ok := fieldLoad(cc.Args[0]); ok {
-							out = append(out, FieldStore{Fn: fn, Instr: in, Struct: typeName(base.Type()), Field: f.Name(), Base: base, Kind: cc.Value.Name()})
+							out = append(out, FieldStore{Fn: fn, Instr: in, Struct: typeName(base.Type()), Field: nm(f), Base: base, Kind: nm(cc.Value)})
 						}
 					}
 					continue
@@ -642,7 +669,7 @@ func globalStores(fn *ssa.Function) []GlobalStore {
 							if len(cc.Args) > 1 {
 								k = cc.Args[1]
 							}
-							out = append(out, GlobalStore{fn, in, g, nil, k, cc.Value.Name()})
+							out = append(out, GlobalStore{fn, in, g, nil, k, nm(cc.Value)})
 						}
 					}
 				}
@@ -670,12 +697,12 @@ func provenance(v ssa.Value, fn *ssa.Function) string {
 			if x == receiver(fn) {
 				kinds["receiver"] = true
 			} else {
-				kinds["param:"+x.Name()] = true
+				kinds["param:"+nm(x)] = true
 			}
 		case *ssa.Alloc:
 			kinds["fresh"] = true
 		case *ssa.FreeVar:
-			kinds["freevar:"+x.Name()] = true
+			kinds["freevar:"+nm(x)] = true
 		case *ssa.Call:
 			if c := calleeOf(x); c != nil {
 				kinds["call:"+shortName(c)] = true
@@ -686,12 +713,12 @@ func provenance(v ssa.Value, fn *ssa.Function) string {
 			}
 		case *ssa.UnOp:
 			if b, _, f, ok := fieldLoad(x); ok {
-				kinds["field:"+typeName(b.Type())+"."+f.Name()] = true
+				kinds["field:"+typeName(b.Type())+"."+nm(f)] = true
 			} else if g, ok := globalLoad(x); ok {
-				kinds["global:"+g.Name()] = true
+				kinds["global:"+nm(g)] = true
 			} else if x.Op == token.MUL {
 				if fv, ok := x.X.(*ssa.FreeVar); ok {
-					kinds["freevar:"+fv.Name()] = true
+					kinds["freevar:"+nm(fv)] = true
 				} else if al, ok := x.X.(*ssa.Alloc); ok {
 					// local variable cell: look at what is stored into it
 					found := false
@@ -712,14 +739,14 @@ func provenance(v ssa.Value, fn *ssa.Function) string {
 			}
 		case *ssa.Lookup:
 			if b, _, f, ok := fieldLoad(x.X); ok {
-				kinds["mapelem:"+typeName(b.Type())+"."+f.Name()] = true
+				kinds["mapelem:"+typeName(b.Type())+"."+nm(f)] = true
 			} else {
 				kinds["mapelem:?"] = true
 			}
 		case *ssa.Extract:
 			if lk, ok := x.Tuple.(*ssa.Lookup); ok {
 				if b, _, f, ok := fieldLoad(lk.X); ok {
-					kinds["mapelem:"+typeName(b.Type())+"."+f.Name()] = true
+					kinds["mapelem:"+typeName(b.Type())+"."+nm(f)] = true
 					break
 				}
 			}
@@ -738,7 +765,7 @@ func provenance(v ssa.Value, fn *ssa.Function) string {
 		case *ssa.Const:
 			kinds["const"] = true
 		case *ssa.Global:
-			kinds["global:"+x.Name()] = true
+			kinds["global:"+nm(x)] = true
 		default:
 			kinds[fmt.Sprintf("%T", s)] = true
 		}
